@@ -350,6 +350,34 @@ def run_case(case, ctx):
                 return
             if record_differs(q, _iq):
                 return
+    if case['seed'] % 6 == 5 and shape and method in ('central', 'forward', 'backward'):
+        # extra arguments belong to the call they were given to: a call with a = 2 is interrupted (f itself uses the object) by a
+        # complete call with a = 3; both equal what a fresh object returns for them
+        state = dict(k=0, busy=False, inner=None)
+        holder = []
+
+        def f_re(x_, a_=1.0, b=2.0):
+            if a_ == 2.0 and not state['busy']:
+                state['k'] += 1
+                if state['k'] == 3:
+                    state['busy'] = True
+                    state['inner'] = holder[0](np.array(x, copy=True), 3.0, b=0.75)
+                    state['busy'] = False
+            return f_cubic(x_, a_, b)
+        holder.append(nd.Derivative(f_re, method=method, n=n, order=order))
+        try:
+            with np.errstate(all='ignore'):
+                outer = holder[0](np.array(x, copy=True), 2.0, b=1.25)
+                ref_o = nd.Derivative(f_cubic, method=method, n=n, order=order)(np.array(x, copy=True), 2.0, b=1.25)
+                ref_i = nd.Derivative(f_cubic, method=method, n=n, order=order)(np.array(x, copy=True), 3.0, b=0.75)
+            ctx.count('overlapping_calls_with_different_arguments')
+            if state['inner'] is None or _bits(outer) != _bits(ref_o) or _bits(state['inner']) != _bits(ref_i):
+                ctx.reject('extra_arguments_not_forwarded_unchanged', observed=[np.ravel(outer)[:3], None if state['inner'] is None else np.ravel(state['inner'])[:3]],
+                           expected=[np.ravel(ref_o)[:3], np.ravel(ref_i)[:3]], detail=dict(overlapping='re-entrant use'), method=method)
+                return
+        except Exception as exc:
+            ctx.reject('raised', observed=repr(exc)[:200], method=method, detail=dict(overlapping=True))
+            return
     if len(ctx.samples) < 3:
         ctx.sample(dict(case=case, x=x.ravel()[:5], out=np.asarray(out).ravel()[:5], position=pidx, scalar_result=float(outs)))
 
